@@ -78,3 +78,108 @@ Definition col_auto (c : catalog) (t col : string) : option bool :=
 (* plain column / table builders for witnesses *)
 Definition pcol (n : string) (ty : column_type) (nullable : bool) : column_def :=
   mkCol n ty nullable None None None None None None.
+
+(* ---------- vocabulary of the simulation lemmas ---------- *)
+(* one action keeps the simulation: executing its statements from the believed catalog of [s] succeeds and ends
+   in the believed catalog of the schema after it *)
+Definition action_sim (s : schema) (a : action) : Prop :=
+  forall s', apply_action s a = Ok s' ->
+  forall P, exists st, gen s P a = Ok st /\ run (catalog_of s) st = RunOk (catalog_of s').
+
+(* a history executed migration by migration, each from the evolving schema of build_plan_queries *)
+Fixpoint run_history (c : catalog) (s : schema) (plans : list plan) : option catalog :=
+  match plans with
+  | [] => Some c
+  | p :: r =>
+      match gen_plan s (p_actions p) with
+      | Ok L => match run c (List.concat L) with
+                | RunOk c' => run_history c' (fold_left step (p_actions p) s) r
+                | RunErr _ _ => None
+                end
+      | Err _ => None
+      end
+  end.
+
+Definition wf_names (s : schema) : bool :=
+  (nodup_str (map t_name s) && forallb (fun t => nodup_str (map c_name (t_columns t))) s)%bool.
+
+(* the resulting nullability of a modified column that is part of the primary key stays NOT NULL (A2) *)
+Definition pk_cols_of_table (s : schema) (t : string) : list string :=
+  match first_pk (constraints_of s t) with Some p => p | None => [] end.
+
+(* what apply_action does to the target column of a ModifyColumn* action *)
+Definition after_col (a : action) (col : column_def) : column_def :=
+  match a with
+  | ModifyColumnType _ _ ty _ => set_type ty col
+  | ModifyColumnNullable _ _ n _ => set_nullable n col
+  | ModifyColumnDefault _ _ d => set_default (option_map default_of_string d) col
+  | ModifyColumnComment _ _ m => set_comment m col
+  | _ => col
+  end.
+
+(* hypothesis of sim_modify_column: distinct table / column names, the column is not the auto-increment key
+   (class D19), the kept default is not re-quoted, a primary-key column stays NOT NULL (A2), and the table the
+   engine ends with may exist (its auto column, if any, is still a key) *)
+Definition wf_auto (s : schema) : bool := forallb (fun td => auto_ok (catalog_of_table td)) s.
+Definition modify_sim_hyp (s : schema) (a : action) : bool :=
+  match modify_target a with
+  | Some (t, c) =>
+      match lookup_column s t c with
+      | Some col =>
+          (wf_names s && negb (is_auto_col s t c) && modify_default_ok a col
+           && (negb (mem_str c (pk_cols_of_table s t)) || negb (c_nullable (after_col a col)))
+           && match apply_action s a with Ok s' => wf_auto s' | Err _ => true end)%bool
+      | None => false
+      end
+  | None => false
+  end.
+
+(* hypothesis of sim_add_column: the column has a new name and carries no inline constraint; re-normalising
+   the table with it appended leaves the constraints as they are; the name is not mentioned by a primary key *)
+Definition plain_column (c : column_def) : bool :=
+  (is_none (c_primary_key c) && is_none (c_unique c) && is_none (c_index c) && is_none (c_foreign_key c))%bool.
+Definition add_column_sim_hyp (s : schema) (a : action) : bool :=
+  match a with
+  | AddColumn t col _ =>
+      match find_table t s with
+      | Some td =>
+          (wf_names s && wf_auto s && plain_column col && negb (has_column (c_name col) td)
+           && match normalize (mkTable (t_name td) (t_description td) (t_columns td ++ [col]) (t_constraints td)) with
+              | Ok n => dec_b (list_eq_dec constraint_eq_dec) (t_constraints n) (t_constraints td)
+              | Err _ => false
+              end
+           && negb (mem_str (c_name col) (pk_cols_of_table s t))
+           && negb (mem_str (c_name col) (auto_increment_columns (t_constraints td))))%bool
+      | None => false
+      end
+  | _ => false
+  end.
+
+(* hypothesis of sim_delete_column: the column is in no constraint of its table (neither as a column nor as a
+   referenced column name), no foreign key references it, it is not the last column, and every foreign key of
+   the table has columns on both sides *)
+Definition constraint_mentions (c : string) (k : table_constraint) : bool :=
+  match k with
+  | CForeignKey _ cols _ rcols _ _ => (mem_str c cols || mem_str c rcols)%bool
+  | other => mem_str c (constraint_columns other)
+  end.
+Definition constraint_nonempty (k : table_constraint) : bool :=
+  match k with
+  | CForeignKey _ cols _ rcols _ _ => (nonempty cols && nonempty rcols)%bool
+  | CCheck _ _ => true
+  | other => nonempty (constraint_columns other)
+  end.
+Definition delete_column_sim_hyp (s : schema) (a : action) : bool :=
+  match a with
+  | DeleteColumn t c =>
+      match find_table t s with
+      | Some td =>
+          (wf_names s && wf_auto s
+           && forallb (fun k => negb (constraint_mentions c k)) (t_constraints td)
+           && forallb constraint_nonempty (t_constraints td)
+           && negb (column_referenced s t c)
+           && Nat.leb 2 (List.length (t_columns td)))%bool
+      | None => false
+      end
+  | _ => false
+  end.
